@@ -172,6 +172,8 @@ def check_formats(run: Run, scratch, stats):
             raise RuntimeError(f"vacuous: no ragged {f} collection with the first sequence shortest / longest by more than two lines")
     if tot.get("route_roundtrips", 0) == 0 or not all(any(r["from"]["fam"] == "O" and r["from"]["fmt"] == f for r in recs) for f in ("fasta", "phylip", "paml", "gde", "json")):
         raise RuntimeError("vacuous: no round trip through the other writer routes (family O)")
+    if tot.get("handle_parses", 0) == 0:
+        raise RuntimeError("vacuous: no parse from an open text handle positioned after consumed lines")
     if tot.get("default_width_roundtrips", 0) == 0:
         raise RuntimeError("vacuous: no ragged round trip at the default line width")
     # names with an interior run of blanks and with an interior tab, in every format
@@ -234,6 +236,8 @@ def check(run: Run):
         "white space INSIDE a name (runs of 2-3 blanks, a tab; digit-only and residue-only words) must come back verbatim in every format "
         "(PHYLIP: within the first 9 characters): the parsers strip the edges of a label only; clustal/msf column layouts have no registered writer and no round trip",
         "writer routes (family O): write(), write_seqs app, to_fasta/to_phylip/to_json strings and FORMATTERS[fmt](dict) must all keep the collection's order; diff kind 'order' = same records, other order",
+        "source representations: bytes, str path, Path, list / tuple / generator of lines, open text handle, open text handle after k consumed preamble lines "
+        "(plain/.gz/.bz2 through open_), utf-16 handle, CR-only line ends; a handle at position k means the remaining lines",
         "PHYLIP truncation is the writer's: names longer than 9 characters keep their first 9 (format/phylip.py)",
         "sequences use upper-case residues and '-' (the bytes FASTA parser upper-cases by documented design); residues A/C of the model are instantiated per case as DNA A/C, RNA A/U or protein M/K",
         "zero-length sequences are only exercised in ragged unaligned collections (FASTA, GDE, JSON) and reported under the class empty-seq",
